@@ -172,6 +172,7 @@ func cmdCheck(args []string) (code int) {
 	load.Normalize(p)
 	rules.CrossCheck = tier == "thorough"
 	check.Fn(c)
+	run.Trusted = append(run.Trusted, "internal/load.Normalize: equivalence-preserving statement rewrites applied to the type-checked syntax before analysis (if-with-init, range over an integer, tagless switch, continue guards, trailing if, return as break in a final loop)")
 	if tier == "thorough" {
 		if n := rules.CrossChecks(); n > 0 {
 			run.Count("entailments_rechecked_by_evaluation", n)
